@@ -26,7 +26,9 @@ RULE = ("O1: 13 connection types x 3 request shapes (two of them against interim
         "(all distinct, single key only, explicit None, absent); every recorded op is one oracle evaluation. "
         "O2: holder/waiter histories on max_connections=1 with release time S and pool timeouts P over orderings "
         "S<P, S=P-eps, S=P+eps, S>P, P=0, several waiters, on asyncio, trio and threads under the controlled "
-        "scheduler; distinct+non-trivial = (type, shape, flavour, config) for O1 and (flavour, ordering) for O2")
+        "scheduler; plus the real synchronous back-end over loopback sockets (direct, TLS, CONNECT tunnel, SOCKS5): the timeout in "
+        "force on the socket at every connect / handshake / send / recv; distinct+non-trivial = (type, shape, flavour, config) "
+        "for O1 and (flavour, ordering) for O2")
 ASSUMPTIONS = ["virtual clock shared by the event loop / thread scheduler and httpcore's time.monotonic",
                "proxy CONNECT exchange is an ordinary HTTP exchange (read/write values apply); only SOCKS negotiation "
                "may use any configured value"]
@@ -337,9 +339,40 @@ def run_o2(case):
     return {"viol": viol, "counters": cnt, "sigs": sorted(sigs), "sample": sample or None}
 
 
+def run_real(case):
+    """The real synchronous back-end over loopback sockets: the timeout that is in force on the (raw or TLS) socket at
+    every connect / handshake / send / recv, recorded by socket subclasses, must be the one the operation calls for."""
+    from .. import realsock
+    viol = []
+    cnt = {k: 0 for k in REQUIRED}
+    cnt["real_backend_ops_checked"] = 0
+    sigs = []
+    for mode in case["modes"]:
+        res = realsock.sync_timeout_ledger(mode)
+        cnt["real_backend_ops_checked"] += len(res["ledger"])
+        cnt["o1_ops_checked"] += len(res["ledger"])
+        sigs.append(f"real|sync|{mode}|{len(res['ledger'])}")
+        ctx = {"mode": mode, "ledger": [list(x) for x in res["ledger"]], "timeouts": realsock.LEDGER_TIMEOUTS}
+        if res.get("status") != 200:
+            viol.append({"key": f"real-backend:request-failed:{mode}", "what": f"{res.get('exc')!r}", "detail": ctx})
+            continue
+        kinds = {op for op, _ in res["ledger"]}
+        need = {"connect"} | ({"tls.handshake", "tls.send", "tls.recv"} if mode.endswith("https") else {"raw.send", "raw.recv"})
+        if not need <= kinds:
+            return {"viol": viol, "counters": cnt, "sigs": sigs, "sample": None,
+                    "inconclusive": f"socket recorder saw {sorted(kinds)} in mode {mode}, expected at least {sorted(need)}"}
+        for op, t, want in realsock.judge_timeout_ledger(res):
+            key = f"real-backend:wrong-timeout:{mode}:{op}"
+            if not any(x["key"] == key for x in viol):
+                viol.append({"key": key, "what": f"{op} ran with timeout {t!r} on the socket, expected {want!r}", "detail": ctx})
+    return {"viol": viol, "counters": cnt, "sigs": sigs, "sample": None}
+
+
 def run_case(case):
     if case["kind"] == "o1":
         return run_o1(case)
+    if case["kind"] == "real":
+        return run_real(case)
     return run_o2(case)
 
 
@@ -350,4 +383,5 @@ def plan(tier, seed):
             cases.append({"kind": "o1", "ctype": ctype, "flavor": flavor, "seed": seed})
     for flavor in ("asyncio", "trio", "sync"):
         cases.append({"kind": "o2", "flavor": flavor, "seed": seed, "sched_seeds": 3 if tier == "quick" else 40})
+    cases.append({"kind": "real", "modes": ["direct-http", "direct-https", "tunnel-https", "socks-https"], "seed": seed})
     return cases
